@@ -151,12 +151,12 @@ PROPS["C15"] = {
 
 PROPS["C02"] = {
     "level": "proof",
-    "verus": ["texlang_macro", "stdext_kmp"],
+    "verus": ["texlang_macro", "stdlib_def", "stdext_kmp"],
     "kani": [],
     "witness_always": ["texlang_macro"],
     "witness_bound": {"texlang_macro": "real VM vs an executable transcription of TeX's macro_call: prefix {none, one token} x parameters {undelimited, delimited by 1-2 tokens, trailing #{} x 1-2 parameters x 10 argument shapes (empty, token, group, several groups, nested groups, leading spaces) x 3-4 replacement texts, plus 3 to 9 parameters (mixed kinds, every parameter used, reversed and repeated, with and without a trailing #{) = 4618 definitions+calls, tokens after the call included"},
     "unverified_callers": [
-        "PROVED: should_trim_outer_braces_if_present, parse_delimited_argument, parse_undelimited_argument (+ SpacesUnexpanded::parse_impl, finish_parsing_balanced_tokens), remove_tokens_from_stream, perform_replacement, the KMP matcher. BOUNDED (witness driver, not proof): Macro::call's own loop (argument index bookkeeping), Parameter::parse_argument dispatch, def.rs parse_prefix_and_parameters / parse_replacement_text",
+        "PROVED: should_trim_outer_braces_if_present, parse_delimited_argument, parse_undelimited_argument (+ SpacesUnexpanded::parse_impl, finish_parsing_balanced_tokens), remove_tokens_from_stream, perform_replacement, the KMP matcher. def.rs parse_prefix_and_parameters (== TeX 474-476 incl. #{ and the two error recoveries, never more than nine parameters). BOUNDED (witness driver, not proof): Macro::call's own loop (argument index bookkeeping), Parameter::parse_argument dispatch, def.rs parse_replacement_text (a local closure over &mut Vec: outside Verus)",
         "## in replacement texts, more than two parameters, \\long/\\outer, the VM expansion loop",
     ],
     "assumptions": [],
@@ -164,7 +164,7 @@ PROPS["C02"] = {
 PROPS["C09"] = {
     "level": "proof",
     "only_kinds": ["overflow", "div-by-zero", "bounds", "precondition", "shift", "assertion", "concrete-counterexample", "kani"],
-    "verus": ["common_scaled", "texlang_parse_int", "texlang_parse_dimen", "texlang_parse_glue", "stdlib_math", "stdext_groupingmap", "stdext_kmp", "texlang_savestack", "texlang_cmdmap", "texlang_vmgroups", "stdlib_prefix", "stdlib_cond", "stdlib_expandafter", "texlang_macro"],
+    "verus": ["common_scaled", "texlang_parse_int", "texlang_parse_dimen", "texlang_parse_glue", "stdlib_math", "stdext_groupingmap", "stdext_kmp", "texlang_savestack", "texlang_cmdmap", "texlang_vmgroups", "stdlib_prefix", "stdlib_cond", "stdlib_expandafter", "texlang_macro", "stdlib_def"],
     "kani": [],
     "witness_always": ["texlang_parse_num", "stdlib_totality"],
     "witness_fns": {"texlang_parse_num": ["parse_impl", "parse_constant", "scan_dimen"]},
